@@ -166,9 +166,10 @@ class FuncADLIndexError(Exception):
 
 def _is_stream_call(node: ast.AST, name: str) -> bool:
     """Is this `name(sequence, lambda x: ...)` the way the rewrite rules below expect it: two
-    positional arguments, the second a lambda that can be called with one argument? A call of
-    another shape (keywords, other argument counts, a function passed by name, `*args`) is
-    none of their business."""
+    positional arguments, the second a lambda with exactly one plain parameter? A call of
+    another shape (keywords, other argument counts, a function passed by name, a lambda with
+    `*args` or default values - which keeps its parameter names and so cannot be moved under
+    or over another lambda safely) is none of their business."""
     if not is_call_of(node, name):
         return False
     assert isinstance(node, ast.Call)
@@ -180,9 +181,9 @@ def _is_stream_call(node: ast.AST, name: str) -> bool:
     if not isinstance(f, ast.Lambda):
         return False
     a = f.args
-    if a.vararg or a.kwarg or a.kwonlyargs or a.posonlyargs:
+    if a.vararg or a.kwarg or a.kwonlyargs or a.posonlyargs or a.defaults:
         return False
-    return len(a.args) - len(a.defaults) <= 1 <= len(a.args)
+    return len(a.args) == 1
 
 
 def _is_first_call(node: ast.AST) -> bool:
